@@ -168,8 +168,15 @@ package twig
 //@   ensures ret == e.Err
 
 // the retry with the unresolved name after a relative-name miss is a documented tolerance
-//@ func (*ExtendsNode).Render props: C17
+//@ func (*ExtendsNode).Render props: C17 C10
 //@   flag errretry (*Engine).Load
+//@   flag rely_tree yes
+//@   atcall (*RenderContext).EvaluateExpression a0 == ctx && a1 == n.parent
+//@   atcall (*Engine).Load a0 == ctx.engine && templateName == fn_ToString_0(ctx, evalRes(old(tr), n.parent, ctx)) && (a1 == templateName || a1 == resolvedName)
+//@   atcall Node.Render a0 == parentTemplate.nodes && a2 != ctx && freshRef(a2) && a2.extending && a2.currentBlock == nil && a2.blockLevel == 0
+//@   atcall Node.Render forall k string :: has(a2.blocks, k) == has(ctx.blocks, k) && (has(ctx.blocks, k) ==> a2.blocks[k] == ctx.blocks[k])
+//@   atcall Node.Render forall k string :: has(a2.parentBlocks, k) == has(ctx.parentBlocks, k) && (has(ctx.parentBlocks, k) ==> a2.parentBlocks[k] == ctx.parentBlocks[k])
+//@   atcall Node.Render forall k string :: has(a2.context, k) == has(ctx.context, k) && (has(ctx.context, k) ==> a2.context[k] == ctx.context[k])
 //@ func (*ImportNode).Render props: C17
 //@   flag errretry (*Engine).Load
 //@ func (*FromImportNode).Render props: C17
@@ -192,7 +199,7 @@ package twig
 //@   flag tolerates GetModifiedTime
 //@   flag errreset Loader.Load
 //@   flag errwrapper loadError causes
-//@   loop 2 invariant pendErr == nil || (exists i int :: 0 <= i && i < len(loaderErrors) && wraps(loaderErrors[i], pendErr))
+//@   loop 1 invariant pendErr == nil || (exists i int :: 0 <= i && i < len(loaderErrors) && wraps(loaderErrors[i], pendErr))
 
 // ---------------------------------------------------------------- render contexts (C01, C06, C18)
 // maps kept in the three map pools are empty (Release empties them before Put; New makes them)
@@ -203,7 +210,8 @@ package twig
 //@   nilable env engine
 //@   fresh
 //@   ensures !ret.sandboxed && ret.env == env && ret.engine == engine && ret.parent == nil
-//@   ensures[C01] !ret.extending && ret.currentBlock == nil && !ret.inParentCall && ret.lastLoadedTemplate == nil
+//@   ensures[C01] !ret.extending && ret.currentBlock == nil && ret.blockLevel == 0 && !ret.inParentCall && ret.lastLoadedTemplate == nil
+//@   ensures[C01] ret.blocks != ret.parentBlocks
 //@   ensures[C01] mapEmpty(ret.blocks) && mapEmpty(ret.parentBlocks) && mapEmpty(ret.macros)
 //@   ensures[C01] ret.context != nil && ret.context != context
 //@   ensures freshRef(ret.context) && freshRef(ret.blocks) && freshRef(ret.parentBlocks) && freshRef(ret.macros)
@@ -212,9 +220,13 @@ package twig
 //@ func (*RenderContext).Clone props: C06 C01
 //@   fresh
 //@   ensures ret.sandboxed == ctx.sandboxed && ret.env == ctx.env && ret.engine == ctx.engine && ret.parent == ctx
-//@   ensures[C01] !ret.extending && ret.currentBlock == nil && !ret.inParentCall
+//@   ensures[C01] !ret.extending && ret.currentBlock == nil && ret.blockLevel == 0 && !ret.inParentCall
 //@   ensures[C01] mapEmpty(ret.context) && mapEmpty(ret.parentBlocks) && ret.lastLoadedTemplate == ctx.lastLoadedTemplate
 //@   ensures[C01] ret.blocks != nil && ret.blocks != ctx.blocks && ret.macros != nil && ret.macros != ctx.macros
+// retiring a context touches that context only
+//@ func (*RenderContext).Release props: C11
+//@   modifies ctx.env, ctx.engine, ctx.currentBlock, ctx.context, ctx.blocks, ctx.parentBlocks, ctx.macros, ctx.parent
+//@   modifies entries(ctx.context), entries(ctx.blocks), entries(ctx.parentBlocks), entries(ctx.macros)
 //@ iface SecurityPolicy.IsFilterAllowed
 //@   assumed
 //@   pure
@@ -335,12 +347,17 @@ package twig
 // What a call that is handed a context may change of existing engine state: that context's own
 // fields and maps (frame discharged for every function by the ctxframe obligations of C11); what it
 // does to caches, pools and the template cache is not visible to the callers' obligations.
+// which definition of which block is being rendered is the same after a successful call as before
+// it (discharged for the whole package by the blockstate/restore obligations of C10)
+//@ group blockstate
+//@   ensures err == nil ==> ctx.currentBlock == old(ctx.currentBlock) && ctx.blockLevel == old(ctx.blockLevel)
+//@ list blockstate_lifecycle NewRenderContext (*RenderContext).Clone (*RenderContext).Release
 //@ group ctxeffects
 //@   modifies ctx.extending, ctx.currentBlock, ctx.blockLevel
 //@   modifies entries(ctx.context), entries(ctx.blocks), entries(ctx.parentBlocks), entries(ctx.macros)
 // a render context handed to a node has its four maps (NewRenderContext and Clone make them; only
 // Release, after which a context is not used, takes them away)
-//@ define ctxWF(C) (C.context != nil && C.blocks != nil && C.parentBlocks != nil && C.macros != nil)
+//@ define ctxWF(C) (C.context != nil && C.blocks != nil && C.parentBlocks != nil && C.macros != nil && C.blocks != C.parentBlocks)
 //@ group renderwf props: C05
 //@   requires ctxWF(ctx)
 //@ apply renderwf (*Node).Render
@@ -348,10 +365,12 @@ package twig
 //@   assumed
 //@   requires ctxWF(ctx)
 //@   use ctxeffects
+//@   use blockstate
 //@   ghostset tr emitRender(old(tr), recv, ctx)
 //@ func (*RenderContext).EvaluateExpression
 //@   assumed
 //@   use ctxeffects
+//@   use blockstate
 //@   ghostset tr emitEval(old(tr), node, ctx)
 //@   ensures err == nil ==> ret0 == evalRes(old(tr), node, ctx) && uf_evalOf(ret0, node, ctx)
 
@@ -504,7 +523,7 @@ package twig
 //@ impl (*Engine).Load props: C15
 //@   flag rely_tree yes
 //@   requires e.environment != nil
-//@   loop 2 invariant[C15] 0 - 1 <= rangeindex && rangeindex < len(e.loaders) && tr == loadsUpTo(old(tr), LS(), rangeindex + 1, name) && missUpTo(old(tr), LS(), rangeindex + 1, name)
+//@   loop 1 invariant[C15] 0 - 1 <= rangeindex && rangeindex < len(e.loaders) && tr == loadsUpTo(old(tr), LS(), rangeindex + 1, name) && missUpTo(old(tr), LS(), rangeindex + 1, name)
 //@   ensures[C15] err == nil ==> (isHit() && ret0 == cached() && tr == old(tr)) || (exists k int :: 0 <= k && k < len(e.loaders) && missUpTo(old(tr), LS(), k, name) && loadErr(loadsUpTo(old(tr), LS(), k, name), e.loaders[k], name) == nil && tr == loadsUpTo(old(tr), LS(), k + 1, name) && ret0.source == loadSrc(loadsUpTo(old(tr), LS(), k, name), e.loaders[k], name) && ret0.name == name && ret0.loader == e.loaders[k])
 //@   ensures[C15] err == nil && !(isHit() && ret0 == cached()) && e.environment.cache ==> has(e.templates, name) && e.templates[name] == ret0
 //@   ensures[C15] !e.environment.cache || err != nil ==> tplSame()
@@ -559,3 +578,79 @@ package twig
 // ---------------------------------------------------------------- include (C11)
 // The included template is rendered in a context of its own (never the includer's), `with` values
 // are evaluated in the includer's context and bound in the included template's context only.
+
+// ---------------------------------------------------------------- inheritance (C10)
+// ctx.blocks[name] is the most-derived definition of a block; ctx.parentBlocks[name] is the chain of
+// definitions (*BlockNode), most-derived first; ctx.blockLevel is the position in that chain of the
+// definition being rendered.
+//@ define isDef(X, B) (typeIs(X, "*BlockNode") && unboxAs(X, "*BlockNode") == B)
+//@ func appendBlockDef props: C10 C05
+//@   modifies nothing
+//@   loop 1 invariant 0 - 1 <= rangeindex && rangeindex < len(chain) && (forall j int :: 0 <= j && j <= rangeindex ==> !isDef(chain[j], block))
+//@   ensures[C10] len(ret) >= len(chain) && (forall j int :: 0 <= j && j < len(chain) ==> ret[j] == chain[j])
+//@   ensures[C10] (exists j int :: 0 <= j && j < len(chain) && isDef(chain[j], block)) ==> ret == chain
+//@   ensures[C10] (forall j int :: 0 <= j && j < len(chain) ==> !isDef(chain[j], block)) ==> len(ret) == len(chain) + 1 && isDef(ret[len(chain)], block) && freshArr(ret)
+// RootNode.Render: definitions already registered by a template further down the chain are never
+// replaced (decided by presence, so an empty body is a definition); the chain of definitions only
+// grows at its end; every block of this template is registered; the template's own text is rendered
+// only when no child is an extends node, otherwise rendering is handed to that node alone.
+//@ define isExt(X, E) (typeIs(X, "*ExtendsNode") && unboxAs(X, "*ExtendsNode") == E)
+//@ define isExtNode(X) (typeIs(X, "*ExtendsNode") && unboxAs(X, "*ExtendsNode") != nil)
+//@ define childBlock(I) unboxAs(n.children[I], "*BlockNode")
+//@ func (*RootNode).Render props: C10
+//@   flag rely_tree yes
+//@   requires forall i int :: 0 <= i && i < len(n.children) && typeIs(n.children[i], "*ExtendsNode") ==> unboxAs(n.children[i], "*ExtendsNode") != nil
+//@   loop 1 invariant[C10] 0 - 1 <= rangeindex && rangeindex < len(n.children) && ctx.extending == old(ctx.extending)
+//@   loop 1 invariant[C10] forall k string :: old(ctx.extending) && old(has(ctx.blocks, k)) ==> has(ctx.blocks, k) && ctx.blocks[k] == old(ctx.blocks[k])
+//@   loop 1 invariant[C10] forall k string :: old(has(ctx.parentBlocks, k)) ==> has(ctx.parentBlocks, k) && len(ctx.parentBlocks[k]) >= old(len(ctx.parentBlocks[k])) && (forall j int :: 0 <= j && j < old(len(ctx.parentBlocks[k])) ==> ctx.parentBlocks[k][j] == old(ctx.parentBlocks[k][j]))
+//@   loop 1 invariant[C10] forall i int :: 0 <= i && i <= rangeindex && typeIs(n.children[i], "*BlockNode") ==> has(ctx.blocks, childBlock(i).name)
+//@   loop 1 invariant[C10] forall k string :: !old(has(ctx.blocks, k)) && has(ctx.blocks, k) ==> (exists i int :: 0 <= i && i <= rangeindex && typeIs(n.children[i], "*BlockNode") && childBlock(i).name == k && ctx.blocks[k] == childBlock(i).body)
+//@   loop 1 invariant[C10] extendsNode == nil ==> (forall i int :: 0 <= i && i <= rangeindex ==> !isExtNode(n.children[i]))
+//@   loop 1 invariant[C10] extendsNode != nil ==> (exists i int :: 0 <= i && i <= rangeindex && isExt(n.children[i], extendsNode))
+//@   atcall (*ExtendsNode).Render a2 == ctx && (exists i int :: 0 <= i && i < len(n.children) && isExt(n.children[i], a0))
+//@   atcall (*ExtendsNode).Render forall k string :: old(ctx.extending) && old(has(ctx.blocks, k)) ==> has(ctx.blocks, k) && ctx.blocks[k] == old(ctx.blocks[k])
+//@   atcall (*ExtendsNode).Render forall i int :: 0 <= i && i < len(n.children) && typeIs(n.children[i], "*BlockNode") ==> has(ctx.blocks, childBlock(i).name)
+//@   loop 2 invariant[C10] forall i int :: 0 <= i && i < len(n.children) ==> !isExtNode(n.children[i])
+//@   loop 2 invariant[C10] 0 - 1 <= rangeindex && rangeindex < len(n.children) && tr == rendersUpTo(old(tr), elemsArr(n.children), off(n.children), rangeindex + 1, ctx)
+//@   ensures[C10] err == nil && (forall i int :: 0 <= i && i < len(n.children) ==> !isExtNode(n.children[i])) ==> tr == rendersUpTo(old(tr), elemsArr(n.children), off(n.children), len(n.children), ctx)
+// BlockNode.Render: the body rendered is the most-derived definition registered under the block's
+// name, decided by presence (an empty body is a definition), otherwise the block's own body; it is
+// rendered node by node in the same context, as level 0 of the chain of this block.
+//@ define blockBody() ite(old(has(ctx.blocks, n.name)), old(ctx.blocks[n.name]), n.body)
+//@ func (*BlockNode).Render props: C10
+//@   flag rely_tree yes
+//@   loop 1 invariant[C10] content == blockBody() && 0 - 1 <= rangeindex && rangeindex < len(content) && tr == rendersUpTo(old(tr), elemsArr(content), off(content), rangeindex + 1, ctx)
+//@   loop 1 invariant[C10] ctx.currentBlock == n && ctx.blockLevel == 0
+//@   atcall Node.Render a2 == ctx && ctx.currentBlock == n && ctx.blockLevel == 0
+//@   loop 1 invariant[C10] rangeindex + 1 == 0 ==> (exists j int :: 0 <= j && j < len(ctx.parentBlocks[n.name]) && isDef(ctx.parentBlocks[n.name][j], n))
+//@   ensures[C10] err == nil ==> tr == rendersUpTo(old(tr), elemsArr(blockBody()), off(blockBody()), len(blockBody()), ctx)
+// parent(): renders the definition after the current level in the chain of the current block, node
+// by node, in a context of its own that has the same variables, blocks and chain and knows its level
+//@ define curChain() old(ctx.parentBlocks[ctx.currentBlock.name])
+//@ define nextDef() unboxAs(curChain()[old(ctx.blockLevel) + 1], "*BlockNode")
+//@ func (*CoreExtension).functionParent$1 props: C10
+//@   flag rely_tree yes
+//@   nilable ctx
+//@   requires ctx != nil ==> ctxWF(ctx)
+//@   loop 3 invariant[C10] 0 - 1 <= rangeindex && rangeindex < len(parentContent) && tr == rendersUpTo(old(tr), elemsArr(parentContent), off(parentContent), rangeindex + 1, cleanCtx)
+//@   loop 3 invariant[C10] parentContent == nextDef().body && cleanCtx != ctx && freshRef(cleanCtx)
+//@   loop 3 invariant[C10] ctx.currentBlock == old(ctx.currentBlock) && ctx.blockLevel == old(ctx.blockLevel)
+//@   atcall Node.Render a2 == cleanCtx && a2 != ctx && freshRef(a2)
+//@   loop 3 invariant[C10] rangeindex + 1 == 0 ==> cleanCtx.blockLevel == ctx.blockLevel + 1 && cleanCtx.currentBlock == ctx.currentBlock
+//@   loop 3 invariant[C10] rangeindex + 1 == 0 ==> (forall k string :: has(cleanCtx.blocks, k) == has(ctx.blocks, k) && (has(ctx.blocks, k) ==> cleanCtx.blocks[k] == ctx.blocks[k]))
+//@   loop 3 invariant[C10] rangeindex + 1 == 0 ==> (forall k string :: has(cleanCtx.parentBlocks, k) == has(ctx.parentBlocks, k) && (has(ctx.parentBlocks, k) ==> cleanCtx.parentBlocks[k] == ctx.parentBlocks[k]))
+//@   loop 3 invariant[C10] rangeindex + 1 == 0 ==> (forall k string :: has(cleanCtx.context, k) == has(ctx.context, k) && (has(ctx.context, k) ==> cleanCtx.context[k] == ctx.context[k]))
+//@   ensures[C10] err == nil ==> ctx != nil && old(ctx.currentBlock) != nil && 0 < old(ctx.blockLevel) + 1 && old(ctx.blockLevel) + 1 < len(curChain()) && typeIs(curChain()[old(ctx.blockLevel) + 1], "*BlockNode")
+//@   ensures[C10] err == nil ==> (exists c *RenderContext :: c != ctx && tr == rendersUpTo(old(tr), elemsArr(nextDef().body), off(nextDef().body), len(nextDef().body), c))
+// the node invariant RootNode.Render relies on (an extends child is a real node) is established
+// where extends nodes are built
+//@ func (*Parser).parseExtends props: C10
+//@   ensures[C10] err == nil ==> typeIs(ret0, "*ExtendsNode") && unboxAs(ret0, "*ExtendsNode") != nil
+// {{ parent() }}: the print node hands the context it is rendering in to the parent() closure (so
+// the level that is looked up is the level being rendered) and writes to its own writer
+//@ func (*PrintNode).Render props: C10
+//@   flag rely_tree yes
+//@   atcall (*RenderContext).EvaluateExpression a0 == ctx && a1 == n.expression
+//@   atcall dyn(*RenderContext) a0 == ctx
+//@   atcall dyn(io.Writer) a0 == w
+//@   atcall WriteString a0 == w
